@@ -1,0 +1,194 @@
+//go:build verif
+
+package app
+
+import (
+	"context"
+	"io"
+	"log/slog"
+	"net/http"
+	"time"
+
+	"github.com/nuetzliches/hookaido/internal/admin"
+	"github.com/nuetzliches/hookaido/internal/config"
+	"github.com/nuetzliches/hookaido/internal/ingress"
+	"github.com/nuetzliches/hookaido/internal/pullapi"
+	"github.com/nuetzliches/hookaido/internal/queue"
+	"github.com/nuetzliches/hookaido/internal/workerapi"
+)
+
+// VerifRuntime exposes the unexported runtime state (route table, authenticators,
+// limiters, reload) to the verification harness. Verification builds only.
+type VerifRuntime struct {
+	state   *runtimeState
+	running config.Compiled
+	now     func() time.Time
+	logger  *slog.Logger
+}
+
+func VerifNewRuntime(compiled config.Compiled, now func() time.Time) (*VerifRuntime, error) {
+	state := newRuntimeState(compiled)
+	v := &VerifRuntime{state: state, running: compiled, now: now, logger: slog.New(slog.NewTextHandler(io.Discard, nil))}
+	if now != nil {
+		state.now = now
+		state.mu.Lock()
+		state.configureIngressRateLimits(compiled)
+		state.mu.Unlock()
+	}
+	if err := state.loadAuth(compiled); err != nil {
+		return nil, err
+	}
+	v.injectClock()
+	return v, nil
+}
+
+// injectClock points every HMAC authenticator at the harness clock (they are built with time.Now).
+func (v *VerifRuntime) injectClock() {
+	if v.now == nil {
+		return
+	}
+	v.state.mu.Lock()
+	defer v.state.mu.Unlock()
+	for _, a := range v.state.hmacByRoute {
+		if a != nil {
+			a.Now = v.now
+		}
+	}
+}
+
+func (v *VerifRuntime) Compiled() config.Compiled { return v.running }
+
+func (v *VerifRuntime) ResolveIngress(r *http.Request, requestPath string) (string, bool) {
+	return v.state.resolveIngress(r, requestPath)
+}
+
+func (v *VerifRuntime) AllowedMethodsFor(r *http.Request, requestPath string) []string {
+	return v.state.allowedMethodsFor(r, requestPath)
+}
+
+func (v *VerifRuntime) AllowIngress(route string) bool         { return v.state.allowIngress(route) }
+func (v *VerifRuntime) AuthorizePull(r *http.Request) bool     { return v.state.authorizePull(r) }
+func (v *VerifRuntime) AuthorizeAdmin(r *http.Request) bool    { return v.state.authorizeAdmin(r) }
+func (v *VerifRuntime) ResolvePull(e string) (string, bool)    { return v.state.resolvePull(e) }
+func (v *VerifRuntime) LimitsFor(route string) (int64, int)    { return v.state.limitsFor(route) }
+func (v *VerifRuntime) TargetsFor(route string) []string       { return v.state.targetsFor(route) }
+func (v *VerifRuntime) HMACAuthFor(r string) *ingress.HMACAuth { return v.state.hmacAuthFor(r) }
+func (v *VerifRuntime) AuthorizeWorker(ctx context.Context, endpoint string) bool {
+	return v.state.authorizeWorker(ctx, endpoint)
+}
+
+// IngressServer wires an ingress.Server to the runtime state exactly as startServers does.
+func (v *VerifRuntime) IngressServer(store queue.Store) *ingress.Server {
+	state, compiled := v.state, v.running
+	ing := ingress.NewServer(store)
+	ing.ResolveRoute = state.resolveIngress
+	ing.AllowedMethodsFor = state.allowedMethodsFor
+	ing.AllowRequestFor = state.allowIngress
+	ing.AllowEnqueueFor = state.allowIngressEnqueue
+	ing.BasicAuthFor = state.basicAuthFor
+	ing.ForwardAuthFor = state.forwardAuthFor
+	ing.HMACAuthFor = state.hmacAuthFor
+	ing.LimitsFor = state.limitsFor
+	ing.TargetsFor = state.targetsFor
+	ing.MaxBodyBytes = compiled.Defaults.MaxBodyBytes
+	ing.MaxHeaderBytes = compiled.Defaults.MaxHeaderBytes
+	return ing
+}
+
+// PullServer wires a pullapi.Server exactly as startServers does.
+func (v *VerifRuntime) PullServer(store queue.Store) *pullapi.Server {
+	state, compiled := v.state, v.running
+	pullHandler := pullapi.NewServer(store)
+	pullHandler.ResolveRoute = state.resolvePull
+	pullHandler.Authorize = state.authorizePull
+	if compiled.PullAPI.MaxBatch > 0 {
+		pullHandler.MaxBatch = compiled.PullAPI.MaxBatch
+	}
+	if compiled.PullAPI.DefaultLeaseTTL > 0 {
+		pullHandler.DefaultLeaseTTL = compiled.PullAPI.DefaultLeaseTTL
+	}
+	pullHandler.MaxLeaseTTL = compiled.PullAPI.MaxLeaseTTL
+	pullHandler.DefaultMaxWait = compiled.PullAPI.DefaultMaxWait
+	pullHandler.MaxWait = compiled.PullAPI.MaxWait
+	return pullHandler
+}
+
+func (v *VerifRuntime) WorkerServer(pull *pullapi.Server) *workerapi.Server {
+	workerHandler := workerapi.NewServer(pull)
+	workerHandler.ResolveRoute = v.state.resolvePull
+	workerHandler.Authorize = v.state.authorizeWorker
+	if v.running.PullAPI.MaxBatch > 0 {
+		workerHandler.MaxLeaseBatch = v.running.PullAPI.MaxBatch
+	}
+	return workerHandler
+}
+
+// AdminServer wires an admin.Server to the runtime state as startServers does (management mutations optional).
+func (v *VerifRuntime) AdminServer(store queue.Store) *admin.Server {
+	state, compiled := v.state, v.running
+	adminH := admin.NewServer(store)
+	adminH.Authorize = state.authorizeAdmin
+	adminH.ResolveManaged = state.resolveManagedEndpoint
+	adminH.ManagedRouteInfoForRoute = state.managedRouteInfoForRoute
+	adminH.ManagedRouteSet = state.managedRouteSetForPolicy
+	adminH.TargetsForRoute = state.targetsForRoute
+	adminH.ModeForRoute = state.modeForRoute
+	adminH.PublishEnabledForRoute = state.publishEnabledForRoute
+	adminH.PublishDirectEnabledForRoute = state.publishDirectEnabledForRoute
+	adminH.PublishManagedEnabledForRoute = state.publishManagedEnabledForRoute
+	adminH.LimitsForRoute = state.limitsFor
+	adminH.MaxBodyBytes = compiled.Defaults.MaxBodyBytes
+	adminH.MaxHeaderBytes = compiled.Defaults.MaxHeaderBytes
+	adminH.PublishGlobalDirectEnabled = compiled.Defaults.PublishPolicy.DirectEnabled
+	adminH.PublishScopedManagedEnabled = compiled.Defaults.PublishPolicy.ManagedEnabled
+	adminH.PublishAllowPullRoutes = compiled.Defaults.PublishPolicy.AllowPullRoutes
+	adminH.PublishAllowDeliverRoutes = compiled.Defaults.PublishPolicy.AllowDeliverRoutes
+	adminH.PublishRequireAuditActor = compiled.Defaults.PublishPolicy.RequireActor
+	adminH.PublishRequireAuditRequestID = compiled.Defaults.PublishPolicy.RequireRequestID
+	adminH.PublishScopedManagedFailClosed = compiled.Defaults.PublishPolicy.FailClosed
+	adminH.PublishScopedManagedActorAllowlist = append([]string(nil), compiled.Defaults.PublishPolicy.ActorAllowlist...)
+	adminH.PublishScopedManagedActorPrefixes = append([]string(nil), compiled.Defaults.PublishPolicy.ActorPrefixes...)
+	adminH.ManagementModel = state.managementModel
+	return adminH
+}
+
+// Reload runs the real reloadConfig against the file and keeps the running config like run() does.
+func (v *VerifRuntime) Reload(path string) bool {
+	updated, ok := reloadConfig(path, v.running, v.state, v.logger, "verif")
+	v.running = updated
+	v.injectClock()
+	return ok
+}
+
+// MutateManagedEndpoint runs the real config-file mutation path (format, atomic write, reload, rollback).
+func (v *VerifRuntime) UpsertManagedEndpoint(path string, req admin.ManagementEndpointUpsertRequest, store queue.Store) (admin.ManagementEndpointMutationResult, error) {
+	res, updated, err := mutateManagedEndpointConfig(path, v.running, v.state, v.logger,
+		func(cfg *config.Config, compiled config.Compiled) (admin.ManagementEndpointMutationResult, error) {
+			return applyManagedEndpointUpsert(cfg, compiled, req, store)
+		}, "verif")
+	v.running = updated
+	v.injectClock()
+	return res, err
+}
+
+func (v *VerifRuntime) DeleteManagedEndpoint(path string, req admin.ManagementEndpointDeleteRequest, store queue.Store) (admin.ManagementEndpointMutationResult, error) {
+	res, updated, err := mutateManagedEndpointConfig(path, v.running, v.state, v.logger,
+		func(cfg *config.Config, compiled config.Compiled) (admin.ManagementEndpointMutationResult, error) {
+			return applyManagedEndpointDelete(cfg, compiled, req, store)
+		}, "verif")
+	v.running = updated
+	v.injectClock()
+	return res, err
+}
+
+func VerifNormalizeHost(h string) string { return normalizeHost(h) }
+
+func VerifWriteFileAtomic(path string, data []byte) error { return writeFileAtomic(path, data) }
+
+// VerifTokenBucket exposes the ingress token bucket.
+type VerifTokenBucket struct{ l *tokenBucketLimiter }
+
+func VerifNewTokenBucket(rps float64, burst int, now time.Time) *VerifTokenBucket {
+	return &VerifTokenBucket{l: newTokenBucketLimiter(rps, burst, now)}
+}
+func (b *VerifTokenBucket) AllowAt(now time.Time) bool { return b.l.AllowAt(now) }
